@@ -38,10 +38,36 @@ pub mod vs {
             std::process::exit(3);
         }
     }
+    pub fn alloc_ok() -> bool { !crate::BIG_ALLOC.load(std::sync::atomic::Ordering::SeqCst) }
+    /// only meaningful under the Kani hasher model; native scenarios compare real digests instead
+    pub fn streams_equal(_i: usize, _j: usize) -> bool { false }
+    pub fn streams_reset() {}
     pub const NATIVE: bool = true;
 }
 
-macro_rules! vcheck { ($c:expr, $l:expr) => { if !($c) { println!("FAILED-CHECK {}", $l); } }; }
+/// counting allocator: a single request above 256 MiB is recorded (and refused above 4 GiB, which makes
+/// the real code take its allocation-failure path = abort, after the label has been written out).
+pub static BIG_ALLOC: std::sync::atomic::AtomicBool = std::sync::atomic::AtomicBool::new(false);
+struct Counting;
+unsafe impl std::alloc::GlobalAlloc for Counting {
+    unsafe fn alloc(&self, l: std::alloc::Layout) -> *mut u8 {
+        if l.size() > (256 << 20) {
+            BIG_ALLOC.store(true, std::sync::atomic::Ordering::SeqCst);
+            use std::io::Write;
+            use std::os::fd::FromRawFd;
+            let mut f = std::mem::ManuallyDrop::new(std::fs::File::from_raw_fd(1));
+            let _ = f.write_all(b"FAILED-CHECK alloc:bounded by buffer\n");
+            if l.size() > (4usize << 30) { return std::ptr::null_mut(); }
+        }
+        std::alloc::System.alloc(l)
+    }
+    unsafe fn dealloc(&self, p: *mut u8, l: std::alloc::Layout) { std::alloc::System.dealloc(p, l) }
+}
+#[global_allocator]
+static GLOBAL: Counting = Counting;
+
+// mirrors the Kani side: every check consumes one recorded value (the fork bit), which is ignored here
+macro_rules! vcheck { ($c:expr, $l:expr) => {{ let c: bool = $c; let _ = crate::vs::bool(); if !c { println!("FAILED-CHECK {}", $l); } }}; }
 macro_rules! vcover { ($c:expr, $l:expr) => { if $c { println!("COVERED {}", $l); } }; }
 
 pub mod coll { pub use std::collections::{HashMap, HashSet}; }
